@@ -339,19 +339,26 @@ def run(ctx) -> None:
                                       and isinstance(c.args[0], ast.Name) and c.args[0].id == DEFENV)
     upd_named = match.nodes_calling(cfg, lambda c: last_attr(c) == "update" and dotted(c.func.value) == ENV and c.args
                                     and isinstance(c.args[0], ast.Name) and c.args[0].id == NAMED)
+    def name_subject(e: ast.AST) -> bool:
+        """the requested name, as it is or lower-cased on the spot"""
+        if isinstance(e, ast.Call) and last_attr(e) in ("lower", "casefold") and not e.args:
+            e = e.func.value
+        return isinstance(e, ast.Name) and e.id == "environment_name"
+
+    def lowered_inline(t: ast.AST) -> bool:
+        return any(isinstance(x, ast.Call) and last_attr(x) in ("lower", "casefold") and isinstance(x.func.value, ast.Name)
+                   and x.func.value.id == "environment_name" for x in ast.walk(t))
     t_default = []
     for n in cfg.nodes:
-        if n.kind == "test" and isinstance(n.ast, ast.Compare) and isinstance(n.ast.ops[0], ast.In) and isinstance(n.ast.left, ast.Name) \
-                and n.ast.left.id == "environment_name" and isinstance(n.ast.comparators[0], (ast.List, ast.Tuple, ast.Set)):
+        if n.kind == "test" and isinstance(n.ast, ast.Compare) and isinstance(n.ast.ops[0], ast.In) and name_subject(n.ast.left) \
+                and isinstance(n.ast.comparators[0], (ast.List, ast.Tuple, ast.Set)):
             vals = {e.value for e in n.ast.comparators[0].elts if isinstance(e, ast.Constant)}
             if vals <= {"", "environment"} and "environment" in vals:
                 t_default.append((n, "T"))
-    t_none = match.test_nodes(cfg, lambda t: "T" if (match.compare_parts(t) and isinstance(match.compare_parts(t)[0], ast.Name)
-                                                     and match.compare_parts(t)[0].id == "environment_name" and isinstance(match.compare_parts(t)[1], ast.Eq)
+    t_none = match.test_nodes(cfg, lambda t: "T" if (match.compare_parts(t) and name_subject(match.compare_parts(t)[0]) and isinstance(match.compare_parts(t)[1], ast.Eq)
                                                      and isinstance(match.compare_parts(t)[2], ast.Constant) and match.compare_parts(t)[2].value == "none") else None)
     # an equality with the one literal is an exact default test too
-    t_default += match.test_nodes(cfg, lambda t: "T" if (match.compare_parts(t) and isinstance(match.compare_parts(t)[0], ast.Name)
-                                                         and match.compare_parts(t)[0].id == "environment_name" and isinstance(match.compare_parts(t)[1], ast.Eq)
+    t_default += match.test_nodes(cfg, lambda t: "T" if (match.compare_parts(t) and name_subject(match.compare_parts(t)[0]) and isinstance(match.compare_parts(t)[1], ast.Eq)
                                                          and isinstance(match.compare_parts(t)[2], ast.Constant) and match.compare_parts(t)[2].value == "environment") else None)
     # dispatch tests on the name that are NOT exact: `name in '<text>'` is a substring test, startswith/endswith/find are prefix tests
     inexact = [n for n in cfg.nodes if n.kind == "test" and n.ast is not None and (
@@ -531,11 +538,15 @@ def run(ctx) -> None:
         ctx.ob("C17.R4-name-case", f, ok, "%s lower-cases the name before using it" % q.split(".")[-1] if ok else
                "%s uses the environment name without lower-casing it first (names differing only in case miss each other)" % q.split(".")[-1],
                construct="%s: name = name.lower() before lookup" % q.split(".")[-1])
-    lows = [n for n in cfg.nodes if n.kind == "stmt" and isinstance(n.ast, ast.Assign) and source.src(n.ast.value) == "environment_name.lower()"]
+    lows = [n for n in cfg.nodes if n.kind == "stmt" and isinstance(n.ast, ast.Assign) and source.src(n.ast.value) in ("environment_name.lower()", "environment_name.casefold()")]
     tests = [n for n, _ in t_default + t_none]
-    ok = bool(lows) and all(cfg.every_path_to_passes(t, gates=lows) for t in tests)
-    ctx.ob("C17.R4-name-case", ewn, ok, "environmentWithName lower-cases the requested name before the branch table" if ok else
-           "environmentWithName compares the requested name without lower-casing it", construct="environment_name = environment_name.lower()")
+    raw = [t for t in tests if not lowered_inline(t.ast) and not (lows and cfg.every_path_to_passes(t, gates=lows))]
+    ok = not raw
+    ctx.ob("C17.R4-name-case", raw[0].ast if raw else ewn, ok, "environmentWithName lower-cases the requested name before (or inside) every test of its branch table" if ok else
+           "environmentWithName compares the requested name as the user spelled it (%s): 'Environment' / 'ENVIRONMENT' - spellings the validation accepts - "
+           "miss the default branch and are looked up as a NAMED environment; when the package defines none called 'environment' the component "
+           "gets FlowIREnvironmentUnknown instead of the default (or launch) environment" % short(raw[0].ast, 50),
+           construct="environmentWithName: the name is lower-cased before the branch table")
 
     # ---------------- R7 -------------------------------------------------------------------------------
     check_stored_environments_not_handed_out(ctx, fl)
